@@ -773,7 +773,7 @@ static std::string nth_string(uint64_t idx, int len) { std::string s(len, ' '); 
 
 // ---------------------------------------------------------------- bearing / distance
 static const double OFFS[3][2] = {{0.0, 0.0}, {-200.0, -200.0}, {1043000.125, 745000.375}};   // (x, y) of lattice node (0,0)
-static const double SPAC[3] = {100.0, 0.01, 7919.123};
+static const double SPAC[6] = {100.0, 0.01, 7919.123, 1e-3, 1e-4, 1e-5};   // down to 10 um: coincidence is |d| < 1 um
 static void node(int off, int sp, int i, double& x, double& y) { x = OFFS[off][0] + (i / 5) * SPAC[sp]; y = OFFS[off][1] + (i % 5) * SPAC[sp]; }
 static void c18_brg(int off, int sp, int i, int j) {
   using namespace GNU_gama::local;
@@ -928,9 +928,9 @@ static int run_c18() {
       X(t);
     }
   }
-  // --- bearing / distance: all ordered pairs (and the 25 coincident ones) of the 5 x 5 lattice, 3 offsets x 3 spacings
+  // --- bearing / distance: all ordered pairs (and the 25 coincident ones) of the 5 x 5 lattice, 3 offsets x 6 spacings (10 um .. 8 km)
   if (on("brg")) {
-    for (int off = 0; off < 3; off++) for (int sp = 0; sp < 3; sp++) {
+    for (int off = 0; off < 3; off++) for (int sp = 0; sp < 6; sp++) {
       if (!take(unit++)) continue;
       for (int i = 0; i < 25; i++) for (int j = 0; j < 25; j++) c18_brg(off, sp, i, j);
     }
